@@ -81,6 +81,8 @@ def check(prog, ctx):
     ctx.rule('C06.k', 'the starting value of the Inv_GammaP iteration (the term the iterate holds when the loop is entered, on the path selected by '
              '(p, a)) is non-decreasing in p, as the quantile it approximates: evaluated for a in {0.3,1,1.5,5,30,100} and twelve p between 1e-9 and 1-1e-9 '
              '(a mirrored normal-quantile convention or p/1-p mix-up starts the iteration on the wrong side of the median and the twelve steps do not recover in the tails)', 1)
+    ctx.rule('C06.l', 'range of the quadrature branch: a value of P or Q computed from a numerical quadrature (whose error has either sign) is clamped to [0,1] '
+             'before it is returned', 1)
     ctx.rule('C06.i', 'quadrature branch (a>100): the integrand t^(a-1)e^-t/Gamma(a) is only evaluated at t >= 0 - both integration limits handed '
              'to Find_Epsilon/Integrate are provably non-negative (lower limit max(0, .) or 0; upper limit x >= 0 by GammaQ\'s guard)', 1)
     ctx.rule('C06.j', 'the gamma family is stateless: in the closure of GammaP/GammaQ/Inv_GammaP/Gamma/GammaLn no persistent local can be read '
@@ -703,6 +705,38 @@ def quadrature_window(prog, ctx, gq):
                                 ok = True
                         if not ok:
                             bad.append('%s limit of %s is %s' % (nm, app.func.__name__.split('::')[-1], t))
+    # range: a quadrature value carries an error of either sign, so a probability computed from it lies in [0,1] only if it is
+    # clamped (the series and continued-fraction branches are not judged here)
+    AUq = sp.core.function.AppliedUndef
+
+    def bounded01(t):
+        if t in (0, 1) or t == sp.Integer(0) or t == sp.Integer(1):
+            return True
+        if isinstance(t, sp.Max) and any(a_ == 0 for a_ in t.args):
+            rest_ = [a_ for a_ in t.args if a_ != 0]
+            return all((isinstance(a_, sp.Min) and any(b_ == 1 for b_ in a_.args)) or bounded01(a_) for a_ in rest_)
+        if isinstance(t, sp.Min) and any(a_ == 1 for a_ in t.args):
+            rest_ = [a_ for a_ in t.args if a_ != 1]
+            return all((isinstance(a_, sp.Max) and any(b_ == 0 for b_ in a_.args)) or bounded01(a_) for a_ in rest_)
+        if isinstance(t, sp.Piecewise):
+            return all(bounded01(e_) for e_, c_ in t.args)
+        if isinstance(t, sp.Add) and len(t.args) == 2 and 1 in t.args:
+            other_ = [a_ for a_ in t.args if a_ != 1][0]
+            return bounded01(-other_)
+        return False
+    unclamped = []
+    nq = 0
+    for o in outs:
+        if o.kind == 'return' and isinstance(o.value, sp.Basic) and any(a_.func.__name__ == L + 'Integrate' for a_ in o.value.atoms(AUq)):
+            nq += 1
+            if not bounded01(o.value):
+                unclamped.append(str(o.value)[:120])
+    if nq:
+        ctx.decide('C06.l', 'quadrature:range', helper, not unclamped, 'the value computed from the quadrature is clamped to [0,1]',
+                   'the quadrature branch returns %s: the quadrature error has either sign, so Q (and P = 1-Q) leave [0,1]' % unclamped[:1],
+                   witness={'reproducer': 'GammaQ(351,238) = -0.00997, GammaP(351,238) = 1.00997; GammaP(234,133) = 1.00003'} if unclamped else None)
+    else:
+        ctx.undecided('C06.l', 'quadrature:range', helper, 'no returning path carries the quadrature value')
     ctx.decide(R, 'quadrature:window', helper, not bad and n >= 2, 'all %d integration limits are 0, max(0, .) or x' % n,
                'the quadrature can evaluate log(t) at negative t: %s' % sorted(set(bad)),
                witness={'limits': sorted(set(bad)), 'reproducer': 'a slightly above 100 (e.g. CDF_Poisson(mu,100)): the window starts below 0 and the result is NaN'} if bad else None)
